@@ -238,3 +238,11 @@ REG.contract(
                           If(old.events.isnone, 0, H.cnt(old.events.val.v, z3.Const("bx!in", RefSort))),
                           patterns=[bag(new.self, z3.Const("bx!in", RefSort))])),
     ])])
+
+
+# the queue contracts C01's run-loop proof rests on (time order, precedence within a period, stored key = the event's own timestamp) serve C01 as well:
+# a change that breaks one of them is reported by the C01 (and C19: the stochastic network runs on the same queue) check too, not only by C11
+for _q in (Q + "EventQueue.add_event", Q + "EventQueue.get_event", Q + "EventQueue.get_current_events", Q + "EventQueue.empty", M + "Event.__lt__"):
+    for _cl in REG.get(_q).ensures:
+        if _cl.tag.startswith("C11."):
+            _cl.props = ("C01", "C11", "C19")     # C19: first-come-first-served admission and 'every arrived EV is somewhere' need every due event delivered, in order
